@@ -318,6 +318,8 @@ def caption_sets(thorough):
         [("i", True), "slanted", ("i", False), " plain"], ["plain ", ("i", True), "slanted", ("i", False), " end"],
         ["plain ", ("i", True), "slanted", ("i", False)], [("i", True), "one", None, "two", ("i", False), " three"],
         [("i", True), "a", ("i", False), ("i", True), "b", ("i", False), "c"], ["x & ", ("i", True), "<y>", ("i", False)],
+        # a line break directly before the closing style node
+        [("i", True), "first > line & more", None, ("i", False), "second line"], ["a ", ("i", True), "b", None, ("i", False)],
     ]
     for k, sp in enumerate(spans):
         yield f"italics {k}", {"langs": {"en-US": [(S, 2 * S, sp, None, None), (3 * S, 4 * S, ["after"], None, None)]}}
